@@ -13,6 +13,14 @@ class FuncInfo:
         self.cls = cls
         self.parent = parent
         self.name = node.name
+        self.deco = set()
+        for d in node.decorator_list:
+            dn = d.func if isinstance(d, ast.Call) else d
+            while isinstance(dn, ast.Attribute):
+                self.deco.add(dn.attr)
+                dn = dn.value
+            if isinstance(dn, ast.Name):
+                self.deco.add(dn.id)
         if cls is not None:
             self.qual = "%s.%s.%s" % (module.name, cls.name, node.name)
             self.short = "%s.%s" % (cls.name, node.name)
